@@ -92,6 +92,8 @@ class State:
         self.fn_stack = []
         self.results = {}         # res n -> (recv, name, args, tc)
         self.decided = {}         # cond term -> truth (path-local memo)
+        self.absent = set()       # (map, key): key established absent from the map and not inserted since
+        self.present = set()      # (map, key): key established present and nothing erased since
         self.retref = []          # per inlined call: does the callee return a reference
 
     def clone(self):
@@ -108,6 +110,8 @@ class State:
         s.fn_stack = list(self.fn_stack)
         s.results = dict(self.results)
         s.decided = dict(self.decided)
+        s.absent = set(self.absent)
+        s.present = set(self.present)
         s.retref = list(self.retref)
         s.this_obj = list(getattr(self, 'this_obj', []))
         return s
@@ -135,6 +139,25 @@ class State:
 
 def rec_node_inner(rec):
     return getattr(rec, 'node', {}).get('inner', []) if hasattr(rec, 'node') else []
+
+
+def key_norm(t):
+    """a key term with the read-era of caller-owned operands removed (the caller's range elements / arguments do not change during a call)"""
+    if isinstance(t, tuple) and t:
+        if t[0] == 'ld' and len(t) == 3 and root_of(t[2])[0] in ('param', 'local'):
+            return ('ld', '*', key_norm(t[2]))
+        return tuple(key_norm(x) if isinstance(x, tuple) else x for x in t)
+    return t
+
+
+def presence_key(v):
+    """cond value `m.find(k) != m.end()` / `==`  ->  ((map, key), polarity: True iff the term being true means present)"""
+    if isinstance(v, tuple) and v and v[0] == 'cmp' and v[1] in ('!=', '=='):
+        for x, y in ((v[2], v[3]), (v[3], v[2])):
+            if isinstance(x, tuple) and x and x[0] == 'q' and x[1] == 'find' and len(x[3]) == 1 and isinstance(y, tuple) and y and y[0] == 'q' \
+                    and y[1] in ('end', 'cend') and y[2] == x[2]:
+                return (x[2], key_norm(x[3][0])), v[1] == '!='
+    return None
 
 
 def json_types(node):
@@ -227,6 +250,8 @@ def root_of(t):
             return ('res', t[1])
         elif k == 'lv' and len(t) == 5 and t[4] == 'param':
             return ('param', t[1])
+        elif k == 'nodeh':
+            return ('local', 'node-handle')      # a node taken out of a map: owned by the function until it is re-inserted
         elif k in ('var', 'lv'):
             return ('heap', None) if through_ptr else ('local', t[1])
         elif k == 'p':
@@ -292,7 +317,7 @@ class Evaluator:
         if k in ('int', 'bool', 'enum', 'ctor', 'now', 'rng', 'pred', 'res', 'adv', 'add', 'bin', 'cmp', 'not',
                  'unk', 'global', 'cast', 'hasval', 'optval', 'float', 'str', 'pair', 'undef', 'some', 'lv', 'ld', 'ma',
                  'fn', 'void', 'default', 'un', 'mcall', 'fncall', 'randdev', 'rng-state', 'iota', 'lambda', 'addr', 'vit',
-                 'atomicval', 'persistent', 'guardval', 'inserter'):
+                 'atomicval', 'persistent', 'guardval', 'inserter', 'nodeh'):
             if k == 'lv' and loc in st.store:
                 return st.store[loc]
             return loc
@@ -367,7 +392,7 @@ class Evaluator:
             st.fieldwrites.setdefault(loc[2], []).append(loc[1])
         r = root_of(loc)
         if r[0] == 'field' and isinstance(val, tuple) and val and val[0] == 'adv' and len(val) > 3 and how not in ('++', '--') \
-                and val[3] != st.epoch(('shape', 'list_it')) and isinstance(val[2], tuple) and val[2][0] in ('ld', 'adv'):
+                and val[3] != st.epoch(('shape', 'list_it')) and isinstance(val[2], tuple) and val[2][0] in ('ld', 'adv', 'q'):
             # std::prev / std::next evaluated before the list was re-linked, stored after it: it names the neighbour of then, not of now
             st.ev('stale-pos', loc, val, site_of(n, st))
         if r[0] in ('field', 'res', 'this', 'param', 'other', 'heap'):
@@ -457,7 +482,7 @@ class Evaluator:
 
     def e_CXXThisExpr(self, n, st):
         # inside an inlined member function of a nested record, `this` is the object the function was called on
-        yield st, (st.this_obj[-1] if getattr(st, 'this_obj', None) else ('this',))
+        yield st, (st.this_obj[-1] if getattr(st, 'this_obj', None) and st.this_obj[-1] is not None else ('this',))
 
     def e_IntegerLiteral(self, n, st):
         yield st, ('int', int(n['value']))
@@ -806,7 +831,16 @@ class Evaluator:
                 return
             for st2, itv in self.rv(a0, st):
                 if isinstance(itv, tuple) and itv and itv[0] == 'q' and itv[1] in ('rbegin', 'crbegin') and name == 'operator*':
-                    # *l.rbegin() is l.back()
+                    # *l.rbegin() is l.back()  (node lists: *std::prev(l.end()), the form the rest of the code uses)
+                    rt = root_of(itv[2])
+                    ft = self.cm.field_by_name[rt[1]].type if rt[0] == 'field' and rt[1] in self.cm.field_by_name else ''
+                    if typeclass(ft) == 'list' and any(('::' + r) in ft for r in self.cm.records):
+                        endq = ('q', 'end', itv[2], (), None)
+                        st2.ev('q', endq, site_of(n, st2))
+                        it2 = self.adv(st2, endq, -1, 'list_it')
+                        st2.ev('use', it2, 'deref', site_of(n, st2))
+                        yield st2, ('deref', it2)
+                        continue
                     loc = ('q', 'back', itv[2], (), itv[4])
                     st2.ev('q', loc, site_of(n, st2))
                     yield st2, loc
@@ -824,6 +858,10 @@ class Evaluator:
                 old = self.load(st2, loc, n)
                 st2.ev('use', old, 'advance', site_of(n, st2))
                 new = self.adv(st2, old, d, t0)
+                if isinstance(loc, tuple) and loc and loc[0] in ('q', 'adv', 'vit'):
+                    # --c.end() / ++c.begin(): the operand is a temporary iterator, nothing is stored anywhere
+                    yield st2, (old if len(args) == 2 else new)
+                    continue
                 self.write(st2, loc, new, n, '++' if d > 0 else '--')
                 yield st2, (old if len(args) == 2 else loc)
             return
@@ -1287,7 +1325,9 @@ class Evaluator:
                             else:
                                 L.iters.append(Path(step(s_o).trace, None, 'continue', s_o))
             stx.ev('loop', L)
+            saved_abs, saved_pres = set(stx.absent), set(stx.present)
             self.havoc(stx, ids, lid, 'post')
+            self.keep_presence(stx, L, saved_abs, saved_pres)
             if name == 'for_each':
                 yield stx, fv
             elif name == 'transform':
@@ -1337,10 +1377,7 @@ class Evaluator:
             for st2, recv in self.eval(base, st):
                 if callee.get('isArrow') and isinstance(recv, tuple) and recv and recv[0] == 'addr':
                     recv = recv[1]
-                st2.this_obj = list(getattr(st2, 'this_obj', [])) + [recv]
-                for st3, rv_ in self.inline(self.ctx.lambdas[mid], args, n, st2):
-                    st3.this_obj = list(st3.this_obj[:-1])
-                    yield st3, rv_
+                yield from self.inline(self.ctx.lambdas[mid], args, n, st2, this_obj=recv)
             return
         for st2, recv in self.eval(base, st):
             if tc == 'lockguard':
@@ -1427,6 +1464,40 @@ class Evaluator:
             if re.search(r'ratio<\s*1\s*,\s*1000000000\s*>', bt) or (isinstance(v, tuple) and v and v[0] in ('now',)):
                 yield st, v          # ticks of the clock's own duration type: the same ordering as the time points
                 return
+        if tc == 'node_handle':
+            hv = self.load(st, recv, n)
+            if isinstance(hv, tuple) and hv and hv[0] == 'nodeh' and name in ('key', 'mapped', 'value'):
+                yield st, ('fld', hv, 'key' if name in ('key', 'value') else 'mapped')
+                return
+            if name in ('empty', 'operator bool'):
+                yield st, ('bool', name != 'empty')
+                return
+        if tc in ('multimap', 'map', 'umap') and name == 'extract' and len(ts) == 1 and root_of(recv)[0] in ('field', 'this'):
+            # node = m.extract(it): the entry leaves the container (like erase(it)); key and mapped value travel in the handle
+            it = ts[0]
+            node = ('deref', it)
+            key0 = self.load(st, self.project(st, node, 'first'), n)
+            map0 = self.load(st, self.project(st, node, 'second'), n)
+            k = st.fresh()
+            st.results[k] = (recv, 'erase', (it,), tc)
+            st.ev('use', it, 'arg:extract', s)
+            st.ev('call', recv, 'erase', (it,), ('res', k), s, tc, frozenset())
+            st.bump(recv, tc)
+            st.decided.clear()
+            st.present = set(x for x in st.present if x[0] != recv)
+            h = ('nodeh', k)
+            st.store[('fld', h, 'key')] = key0
+            st.store[('fld', h, 'mapped')] = map0
+            yield st, h
+            return
+        if tc in ('multimap', 'map', 'umap') and name == 'insert' and ts and isinstance(ts[-1], tuple) and ts[-1] and ts[-1][0] == 'nodeh' \
+                and root_of(recv)[0] in ('field', 'this'):
+            # m.insert(std::move(node)): the entry (key, mapped) as they stand in the handle now enters the container
+            h = ts[-1]
+            kk = self.load(st, ('fld', h, 'key'), n)
+            mm = self.load(st, ('fld', h, 'mapped'), n)
+            yield from self.std_call(n, st, recv, tc, 'emplace', [kk, mm], arg_nodes=None)
+            return
         if tc == 'list' and name in ('back', 'front') and not ts:
             # a list of node records: l.back() is *std::prev(l.end()), l.front() is *l.begin() (the forms the rest of the code uses)
             bt = ''
@@ -1477,12 +1548,63 @@ class Evaluator:
             st.ev('q', term, s)
             yield st, term
             return
+        keyed = None
+        if tc in ('umap', 'map') and root_of(recv)[0] in ('field', 'this') and name in ('emplace', 'try_emplace', 'insert', 'emplace_hint') and ts:
+            a = list(ts)
+            if name == 'emplace_hint' or (name in ('insert', 'try_emplace') and len(a) >= 2 and typeclass(qt((arg_nodes or [None])[0] or {})) in ITERATORS):
+                a = a[1:]
+            if len(a) == 1 and isinstance(a[0], tuple) and a[0] and a[0][0] == 'pair':
+                keyed = a[0][1]
+            elif len(a) == 1 and isinstance(a[0], tuple) and a[0] and a[0][0] == 'ctor' and len(a[0]) > 2 and len(a[0][2]) == 2:
+                keyed = a[0][2][0]
+            elif a:
+                keyed = a[0]
+        if keyed is not None:
+            # m.emplace(k, ...): inserts only if k is absent, otherwise hands back the existing entry and changes nothing
+            mk = (recv, key_norm(keyed))
+            findt = ('q', 'find', recv, (keyed,), st.epoch(recv))
+            endt = ('q', 'end', recv, (), None)
+            returns_pair = name != 'emplace_hint' and not (name == 'insert' and len(ts) == 2)
+            branches = []
+            if mk in st.present:
+                branches = [(st, True)]
+            elif mk in st.absent:
+                branches = [(st, False)]
+            else:
+                sp = st.clone()
+                sp.ev('q', findt, s)
+                sp.ev('cond', ('cmp', '!=', findt, endt), True, s)
+                sp.present.add(mk)
+                st.ev('q', findt, s)
+                st.ev('cond', ('cmp', '!=', findt, endt), False, s)
+                branches = [(sp, True), (st, False)]
+            for sb, was_present in branches:
+                if was_present:
+                    yield sb, (('pair', findt, ('bool', False)) if returns_pair else findt)
+                    continue
+                k = sb.fresh()
+                res = ('res', k)
+                sb.results[k] = (recv, name, tuple(ts), tc)
+                sb.ev('call', recv, name, tuple(ts), res, s, tc, flags)
+                sb.bump(recv, tc)
+                sb.decided.clear()
+                sb.absent.discard(mk)
+                sb.present.add(mk)
+                if returns_pair:
+                    sb.store[('fld', res, 'second')] = ('bool', True)
+                yield sb, res
+            return
         k = st.fresh()
         res = ('res', k)
         st.results[k] = (recv, name, tuple(ts), tc)
         st.ev('call', recv, name, tuple(ts), res, s, tc, flags)
         st.bump(recv, tc)
         st.decided.clear()
+        if tc in ('umap', 'map'):
+            # an erase / clear / extract may remove any key: what was present may be gone (what was absent stays absent)
+            st.present = set(x for x in st.present if x[0] != recv)
+            if name in ('operator[]', 'insert_or_assign', 'merge', 'swap'):
+                st.absent = set(x for x in st.absent if x[0] != recv)
         yield st, res
 
     # ------------------------------------------------------------------ locks
@@ -1553,7 +1675,7 @@ class Evaluator:
         st.guards = list(reversed(keep))
 
     # ------------------------------------------------------------------ inlining
-    def inline(self, m, args, n, st):
+    def inline(self, m, args, n, st, this_obj=None):
         if len(st.fn_stack) >= MAX_DEPTH or m.qname in st.fn_stack[1:] and st.fn_stack.count(m.qname) > 1:
             yield st, self.unknown(st, 'inline depth/recursion at %s' % m.qname, n)
             return
@@ -1603,12 +1725,15 @@ class Evaluator:
                     st2.env[p['id']] = loc
             st2.ev('enter', m.qname, site_of(n, st2), m.key())
             st2.fn_stack.append(m.qname)
+            # arguments were evaluated in the caller's context; only the body sees the callee's `this`
+            st2.this_obj = list(getattr(st2, 'this_obj', [])) + [this_obj]
             rt = (m.node.get('type', {}).get('qualType', '') or '')
             rt = rt.rsplit('->', 1)[1] if '->' in rt else rt.split('(')[0]
             st2.retref = st2.retref + [rt.strip().endswith('&')]
             for st3, flow in self.exec(m.body, st2):
                 st3.fn_stack.pop()
                 st3.retref = st3.retref[:-1]
+                st3.this_obj = list(st3.this_obj[:-1])
                 st3.ev('leave', m.qname)
                 st3.env = dict(saved_env)
                 if flow and flow[0] == 'ret':
@@ -1664,12 +1789,26 @@ class Evaluator:
                 yield st2, (st2.decided[v] != inv)
                 continue
             s = site_of(n, st2)
+            pk = presence_key(v)
+            if pk is not None:
+                # known from an earlier test of the same key (no insertion of it / no erase since): not a new decision
+                mk, pol = pk
+                if mk in st2.absent:
+                    yield st2, ((not pol) != inv)
+                    continue
+                if mk in st2.present:
+                    yield st2, (pol != inv)
+                    continue
             stt = st2.clone()
             stt.ev('cond', v, True, s)
             stt.decided[v] = True
+            if pk is not None:
+                (stt.present if pk[1] else stt.absent).add(pk[0])
             yield stt, (True != inv)
             st2.ev('cond', v, False, s)
             st2.decided[v] = False
+            if pk is not None:
+                (st2.absent if pk[1] else st2.present).add(pk[0])
             yield st2, (False != inv)
 
     # ------------------------------------------------------------------ statements
@@ -2081,6 +2220,28 @@ class Evaluator:
         w(n)
         return out
 
+    def lambda_assigned(self, st, node, depth=0):
+        """locals assigned inside lambdas that the statement may call through a variable / parameter holding the lambda"""
+        out = set()
+        if depth > 3:
+            return out
+
+        def w(x):
+            if not isinstance(x, dict):
+                return
+            if x.get('kind') == 'DeclRefExpr' and x.get('referencedDecl', {}).get('kind') in ('VarDecl', 'ParmVarDecl'):
+                loc = st.env.get(x['referencedDecl']['id'])
+                v = st.store.get(loc, loc) if loc is not None else None
+                if isinstance(v, tuple) and v and v[0] == 'lambda' and v[1] in self.ctx.lambdas:
+                    lam = self.ctx.lambdas[v[1]]
+                    if lam.body is not None:
+                        out.update(self.assigned_locals(lam.body))
+                        out.update(self.lambda_assigned(st, lam.body, depth + 1))
+            for c in x.get('inner', []) or []:
+                w(c)
+        w(node)
+        return out
+
     def havoc(self, st, ids, lid, tag):
         st.era += 1
         for loc in list(st.store):
@@ -2089,6 +2250,8 @@ class Evaluator:
                 del st.store[loc]
         st.fieldwrites.clear()
         st.decided.clear()
+        st.absent.clear()
+        st.present.clear()
         for vid in ids:
             b = st.env.get(vid)
             if b is not None and isinstance(b, tuple) and b[0] in ('var', 'p'):
@@ -2146,15 +2309,39 @@ class Evaluator:
             return None
         return v, vi[0]
 
-    def do_loop(self, n, st, kind, init, cond, inc, body, range_info=None):
+    def keep_presence(self, st, L, saved_abs, saved_pres):
+        """what was known about keys before a loop still holds after it for every map no iteration inserts into / erases from"""
+        ins, ers = set(), set()
+
+        def walk(paths):
+            for p in paths:
+                for e in p.trace:
+                    if e[0] == 'call':
+                        if e[2] in ('emplace', 'try_emplace', 'insert', 'emplace_hint', 'operator[]', 'insert_or_assign', 'merge', 'swap') or \
+                                str(e[2]).startswith('algo:'):
+                            ins.add(e[1])
+                        if e[2] in ('erase', 'clear', 'extract', 'swap', 'merge') or str(e[2]).startswith('algo:'):
+                            ers.add(e[1])
+                    elif e[0] == 'loop':
+                        walk(e[1].iters)
+                    elif e[0] == 'unknown':
+                        ins.add(None)
+        walk(L.iters)
+        if None in ins:
+            return
+        st.absent |= set(x for x in saved_abs if x[0] not in ins)
+        st.present |= set(x for x in saved_pres if x[0] not in ers)
+
+    def do_loop(self, n, st, kind, init, cond, inc, body, range_info=None, cond_decl=None):
         """summarise a loop: one arbitrary iteration per body path from a havocked state; continue after it
         from a havocked state.  Iteration paths that return terminate the function."""
         lid = st.fresh()
         L = Loop(lid, kind, site_of(n, st))
         ids = set()
-        for part in (cond, inc, body):
+        for part in (cond, inc, body, cond_decl):
             if part is not None:
                 ids |= self.assigned_locals(part)
+                ids |= self.lambda_assigned(st, part)
         L.assigned = ids
 
         def after_init(st):
@@ -2185,6 +2372,11 @@ class Evaluator:
                         L.iters.append(Path(st_b.trace, flow[1], 'ret', st_b))
                         outs.append((st_b, flow))
                 conds = []
+            elif cond_decl is not None:
+                conds = []
+                for st_d, flow_d in self.exec(cond_decl, it_st):
+                    if flow_d is None:
+                        conds += list(self.cond(cond, st_d))
             else:
                 conds = self.cond(cond, it_st) if cond is not None else [(it_st, True)]
             for st_c, truth in conds:
@@ -2211,7 +2403,9 @@ class Evaluator:
                 r.guards = []
                 yield r, flow
             # ---- continuation after the loop
+            saved_abs, saved_pres = set(st.absent), set(st.present)
             self.havoc(st, ids, lid, 'post')
+            self.keep_presence(st, L, saved_abs, saved_pres)
             if reseed is not None:
                 vloc = st.env.get(reseed[0]['id'])
                 vals = list(self.rv(reseed[1], st))
@@ -2233,7 +2427,9 @@ class Evaluator:
     def s_WhileStmt(self, n, st):
         parts = [c for c in n.get('inner', []) if isinstance(c, dict) and c.get('kind')]
         cond, body = parts[-2], parts[-1]
-        yield from self.do_loop(n, st, 'while', None, cond, None, body)
+        # while (T* p = f()) ...: the condition variable is declared anew before every evaluation of the condition
+        cdecl = parts[0] if n.get('hasVar') and len(parts) >= 3 and parts[0].get('kind') == 'DeclStmt' else None
+        yield from self.do_loop(n, st, 'while', None, cond, None, body, cond_decl=cdecl)
 
     def s_DoStmt(self, n, st):
         parts = [c for c in n.get('inner', []) if isinstance(c, dict) and c.get('kind')]
